@@ -49,3 +49,9 @@ pub fn new_radixn<T: crate::FftNum>(
         .collect();
     std::sync::Arc::new(crate::algorithm::RadixN::new(&fs, base_fft))
 }
+
+/// one call of the AVX2 Rader index stepper `VectorizedMultiplyMod` (private): `(b, divisor, intermediate)` and the four lanes of `mul_rem(a)`
+#[cfg(all(target_arch = "x86_64", feature = "avx"))]
+pub fn avx_mul_rem(a: u64, b: u32, divisor: u32) -> Option<([u64; 3], [u64; 4])> {
+    crate::avx::verif_mul_rem(a, b, divisor)
+}
